@@ -48,10 +48,12 @@ ASSUMPTIONS = [
     "whether autobegin had already happened when the very first statement of a transaction fails is not part of the contract: the model adopts the observed answer for that one bit",
     "savepoint handles are used in order (C23 covers misuse); single thread; default QueuePool(5, 10)",
     "a Connection whose close() raised is closed again (and finally dropped) by the harness",
+    "known finding excluded by construction and pinned: a failing DBAPI rollback of the root transaction leaves open savepoints attached to the Connection",
     "known finding excluded by construction and pinned: a disconnect raised by the autorollback that follows an ordinary error outside a transaction is surfaced with connection_invalidated=False",
     "Pool._invalidate is generational as its docstring states: a failure on a connection that predates the last pool-wide invalidation does not start a new one",
 ]
 
+SIG_RB_SP = "C27/rollback-failure/savepoint-left-attached"
 SIG_NESTED = "C27/flag/connection_invalidated/disconnect-during-autorollback"
 _INJ = re.compile(r"injected (disconnect|error) at (\w+)#(\d+)")
 
@@ -137,7 +139,7 @@ class _Run:
 
     def run(self, c, label, fn):
         """returns (exception or None)"""
-        if c.txn in (None, "failed") and not c.closed and not c.invalid and not self.case.get("pinned"):
+        if c.txn in (None, "failed") and not c.closed and not self.case.get("pinned"):
             # known finding: ordinary error before autobegin -> autorollback -> disconnect on that rollback is
             # surfaced with connection_invalidated=False.  Keep the second fault away.
             nc, nr = self.db.counts["cursor"], self.db.counts["rollback"]
@@ -202,12 +204,12 @@ class _Run:
             raise Violation(f"C27/flag/connection_invalidated/{site}", f"{label}: DBAPIError.connection_invalidated={e.connection_invalidated} for a {kind} at {site}#{k} "
                             f"(listener={self.cfg['listener']}); {self.T()}", observed=e.connection_invalidated, expected=disc)
         hit = next((x[0] for x in self.new_faults() if x[1] == site and x[2] == k), None)
-        if pre_invalid and site != "connect" and hit is not None and not c.closed:
+        if pre_invalid and site not in ("connect", "ping") and hit is not None and not c.closed:
             # the Connection had transparently re-acquired a DBAPI connection before this error
             self.cls.add("transparent-reconnect")
             c.invalid = False
             self.note_acquired(c, hit, label, as_of_op_start=True)
-        if disc and site != "connect":
+        if disc and site not in ("connect", "ping"):
             self.apply_disconnect_bans(hit)
             if not c.closed:
                 c.invalid = True
@@ -219,7 +221,7 @@ class _Run:
         elif not disc:
             # a non-disconnect error must leave the set of open connections alone (apart from a reconnect in progress)
             now_open = set(F.open_ids(self.db))
-            if not pre_invalid and site not in ("connect", "close") and now_open != self.open_before:
+            if not pre_invalid and site not in ("connect", "close", "ping") and now_open != self.open_before:
                 raise Violation(f"C27/non-disconnect/{label}/pool-touched", f"{label}: ordinary error at {site}#{k} changed the open connections {sorted(self.open_before)} -> {sorted(now_open)}; {self.T()}")
         return disc
 
@@ -468,10 +470,20 @@ class _Run:
         if disc and was_open:
             c.disc_in_txn = True
 
+    def strip_rollback_fault_with_savepoints(self, c):
+        """known finding: when the DBAPI rollback of the root transaction raises, RootTransaction._close_impl skips
+        cancelling the savepoints, which stay attached to the Connection"""
+        if c.sps and c.txn == "active" and not c.invalid and not self.case.get("pinned"):
+            k = self.db.counts["rollback"]
+            if self.db.plan.pop(("rollback", k), None) is not None:
+                self.excluded.append("DBAPI rollback failure while savepoints are open (known finding: savepoints stay attached to the Connection)")
+
     def op_rollback(self, c):
         if c.obj is None or c.closed:
             return
         self.tick(c)
+        self.strip_rollback_fault_with_savepoints(c)
+        had_sps = bool(c.sps)
         had = c.txn
         pre_invalid = c.invalid
         e = self.run(c, "rollback", c.obj.rollback)
@@ -491,10 +503,15 @@ class _Run:
         if disc:
             c.disc_in_txn = True
         self.cls.add("rollback-failed")
+        if had_sps and c.obj.get_nested_transaction() is not None:
+            raise Violation(SIG_RB_SP, f"rollback() raised ({'disconnect' if disc else 'error'}) and the root transaction is gone, but get_nested_transaction() still returns the "
+                            f"savepoint (in_nested_transaction()={c.obj.in_nested_transaction()}); a failed savepoint left this way makes every execute raise "
+                            f"PendingRollbackError and Connection.rollback() cannot clear it; {self.T()}", observed="savepoint still attached", expected="no nested transaction")
 
     def op_close(self, c):
         if c.obj is None or c.closed:
             return
+        self.strip_rollback_fault_with_savepoints(c)
         for attempt in range(3):
             e = self.run(c, "close", c.obj.close)
             if e is None:
@@ -527,6 +544,10 @@ class _Run:
             exp_in = c.txn == "active"
             if o.in_transaction() != exp_in:
                 raise Violation("C27/state/in_transaction", f"after {after}: conn{i}.in_transaction()={o.in_transaction()} model txn={c.txn}; {self.T()}", observed=o.in_transaction(), expected=exp_in)
+            exp_nested = bool(c.sps) and c.sps[-1][1] == "active"
+            if o.in_nested_transaction() != exp_nested:
+                raise Violation("C27/state/in_nested_transaction", f"after {after}: conn{i}.in_nested_transaction()={o.in_nested_transaction()} model savepoints={[x[1] for x in c.sps]}; {self.T()}",
+                                observed=o.in_nested_transaction(), expected=exp_nested)
             if (o.get_transaction() is not None) != (c.txn is not None):
                 raise Violation("C27/state/get_transaction", f"after {after}: conn{i}.get_transaction()={o.get_transaction()} model txn={c.txn}; {self.T()}")
         for f in self.db.injected[self.inj_pos :]:
